@@ -75,7 +75,7 @@ def _gap_rows(L, upto, R, Q):
         ('row_tables', forall(a, z3.Implies(rng(0, a, upto), z3.And(
             0 <= rl[a], rc[a] >= 0, rl[a] + rc[a] <= Q.len, rs[a] >= 0)), [rl[a]])),
         ('rows_are_consecutive', z3.And(z3.Implies(upto > 0, rs[0] == 0),
-                                        forall(a, z3.Implies(z3.And(0 <= a, a + 1 < upto), rs[a + 1] == rs[a] + rc[a]), [rs[a + 1]]))),
+                                        forall(a, z3.Implies(z3.And(1 <= a, a < upto), rs[a] == rs[a - 1] + rc[a - 1]), [rs[a]]))),
         ('rows_monotone', forall([a, z3.Int('a2')], z3.Implies(z3.And(0 <= a, a < z3.Int('a2'), z3.Int('a2') < upto),
                                                                rs[a] + rc[a] <= rs[z3.Int('a2')]), [MP(rs[a], rs[z3.Int('a2')])])),
         ('row_is_exactly_the_labels_in_range', forall([a, j], z3.Implies(
